@@ -28,7 +28,8 @@ RULE = ("NODES run = one generated program handing work to other threads on othe
         "under one seeded interleaving, the per-node log files merged in a drawn order with drawn line shuffling, "
         "parsed and compared with the model (remote sub-tree at exactly the reserved position, same task_uuid, ids "
         "pairwise distinct and equal to the model's next free position). RACE run = one preserve_context callable "
-        "called by 2-4 threads under a seeded interleaving with pre-emption at every line of _action.py. distinct = "
+        "called by 2-4 threads under a seeded interleaving with pre-emption at every line of _action.py. FORK run (3%) = a "
+        "real os.fork(): the child continues the task, the parent drops the callable, both logs merged. distinct = "
         "distinct (program shape | racer count, schedule signature, merge order); non-trivial = >= 1 hand-over "
         "(NODES) / >= 1 switch between the racers' calls (RACE).")
 REAL = base.REAL
